@@ -23,7 +23,9 @@ def subharnesses(tier):
         for pl0 in (False, True):
             for man0 in (False, True):
                 for cache0 in ('absent', 'old'):
-                    for fault in ('none', 'oserror', 'crash'):
+                    for fault in ('none', 'oserror', 'crash') + (
+                            ('vanish',) if cache0 == 'old' and not exp0
+                            else ()):
                         subs.append(('a-%s%s%s-%s-%s' % (
                             'E' if exp0 else 'e', 'P' if pl0 else 'p',
                             'M' if man0 else 'm', cache0, fault),
@@ -43,6 +45,13 @@ class _StatShim:
 
     def __getattr__(self, k):
         return getattr(self._real, k)
+
+    on_unlink = None
+
+    def unlink(self, path, *a, **kw):
+        if self.on_unlink is not None:
+            self.on_unlink(path)
+        return self._real.unlink(path, *a, **kw)
 
     def stat(self, path, *a, **kw):
         st = self._real.stat(path, *a, **kw)
@@ -126,9 +135,23 @@ def harness(S, spec):
     mgr.tm_env = _Env()
     mgr._hostname = HOST
     eventmgr.os = _StatShim(os, ctimes)
+    if spec['fault'] == 'vanish':
+        # a concurrent actor (appcfgmgr dropping an entry it could not
+        # configure) removes a cache file between the listing and the unlink
+        # of the synchronisation: the j-th unlink finds its file gone
+        j = S.choice('vanishing_unlink', 3)
+        nun = [0]
+
+        def on_unlink(path):
+            if nun[0] == j and os.path.exists(path):
+                os.unlink(path)
+                S.reach('file_vanished_before_unlink')
+            nun[0] += 1
+        eventmgr.os.on_unlink = on_unlink
     # ---- fault / observation points inside fs.write_safe
     fault = spec['fault']
-    k = S.int('fault_at_call', 0, 12) if fault != 'none' else None
+    k = S.int('fault_at_call', 0, 12) if fault in ('oserror', 'crash') \
+        else None
     calls = [0]
     visible = []         # (name, text) observed at the instant of the rename
 
@@ -186,14 +209,16 @@ def harness(S, spec):
             outcome = 'crash'
         except OSError as e:
             outcome = 'oserror'
-            S.check('C12:unexpected_oserror', fault == 'oserror',
+            S.check('C12:unexpected_oserror', fault == 'oserror' or
+                    (fault == 'vanish' and
+                     isinstance(e, FileNotFoundError)),
                     {'error': repr(e)})
     finally:
         eventmgr.yaml.dump = orig_dump
         fs.tempfile = _tempfile
         fs.os = os
         eventmgr.os = os
-    if fault != 'none':
+    if fault in ('oserror', 'crash'):
         S.assume(outcome != 'ok')       # k beyond the number of calls
         S.reach('fault_injected')
     import yaml
